@@ -59,6 +59,9 @@ def instances(tier):
         for filt in ("band", "none"):
             out.append({"name": f"order_{detrend}_{filt}", "func": "run_order", "kwargs": {"detrend": detrend, "filt": filt, "n": 7, "k": 3}})
     out.append({"name": "order_two_records", "func": "run_order", "kwargs": {"detrend": "linear", "filt": "band", "n": 5, "k": 2, "nrec": 2}})
+    # recordings with different time steps in one call: each is filtered at ITS sampling rate and split by ITS sample count
+    out.append({"name": "order_two_records_two_time_steps", "func": "run_order", "kwargs": {"detrend": "linear", "filt": "band", "n": 5, "k": 2, "nrec": 2, "dts": [0.5, 0.25]}})
+    out.append({"name": "order_two_records_two_time_steps_reversed", "func": "run_order", "kwargs": {"detrend": "constant", "filt": "band", "n": 5, "k": 2, "nrec": 2, "dts": [0.25, 0.5]}})
     return out
 
 
@@ -173,14 +176,14 @@ def run_tiling(rep, tier, n, k):
         rep.sample({"N": n, "k": k, "windows": None if wins is None else len(wins)})
 
 
-def reference_pipeline(ctx, s, d, a, n, k, detrend, filt, corner):
+def reference_pipeline(ctx, s, d, a, n, k, detrend, filt, corner, dt=DT):
     """D(split_j(B(R(x)))) with the same environment models."""
     c_, s_ = UF_COSD(z3.simplify(a.e - d)), UF_SIND(z3.simplify(a.e - d))
     ns = [s["ns"][j] * Sym(c_) + s["ew"][j] * Sym(s_) for j in range(n)]
     ew = [s["ew"][j] * Sym(c_) - s["ns"][j] * Sym(s_) for j in range(n)]
     comps = {"ns": np.array(ns, dtype=object), "ew": np.array(ew, dtype=object), "vt": np.array(list(s["vt"]), dtype=object)}
     if filt == "band":
-        sos = models.opaque_butter(5, list(corner), "bandpass", fs=1 / DT, output="sos")
+        sos = models.opaque_butter(5, list(corner), "bandpass", fs=1 / dt, output="sos")
         comps = {c: models.opaque_sosfiltfilt(sos, v) for c, v in comps.items()}
     out = []
     for j in range(n // k):
@@ -194,7 +197,7 @@ def reference_pipeline(ctx, s, d, a, n, k, detrend, filt, corner):
     return out
 
 
-def run_order(rep, tier, detrend, filt, n, k, nrec=1):
+def run_order(rep, tier, detrend, filt, n, k, nrec=1, dts=None):
     Ld = L()
     PR, S = Ld["preprocessing"], Ld["settings"]
     TS = Ld["timeseries"].TimeSeries
@@ -207,16 +210,17 @@ def run_order(rep, tier, detrend, filt, n, k, nrec=1):
         for i in range(nrec):
             s = PP.samples(f"r{i}", n, ctx)
             ss.append(s)
-            recs.append(R3(*[TS(s[c], DT) for c in ("ns", "ew", "vt")], degrees_from_north=20.0))
+            recs.append(R3(*[TS(s[c], DT if dts is None else dts[i]) for c in ("ns", "ew", "vt")], degrees_from_north=20.0))
         st = S.HvsrPreProcessingSettings(orient_to_degrees_from_north=a, filter_corner_frequencies_in_hz=list(corner), window_length_in_seconds=k * DT, detrend=detrend)
         out = PR.preprocess(recs, st)
         want = []
-        for s in ss:
-            want += reference_pipeline(ctx, s, z3.RealVal(20), a, n, k, detrend, filt, corner)
+        for i, s in enumerate(ss):
+            dt = DT if dts is None else dts[i]
+            want += reference_pipeline(ctx, s, z3.RealVal(20), a, n, int(round(k * DT / dt)), detrend, filt, corner, dt=dt)
         return ss, a, out, want
 
     for ctx, (ss, a, out, want) in rep.explore(run, max_paths=20):
-        W = lambda m: {"kind": "order", "detrend": detrend, "filt": filt, "n": n, "k": k, "nrec": nrec, "a": concretiser(m)(a)}
+        W = lambda m: {"kind": "order", "detrend": detrend, "filt": filt, "n": n, "k": k, "nrec": nrec, "dts": dts, "a": concretiser(m)(a)}
         bad = [z3.BoolVal(len(out) != len(want))]
         if len(out) == len(want):
             for wdw, ref in zip(out, want):
@@ -288,11 +292,12 @@ def replay(spec):
         return {"reproduced": False, "detail": "tiling as specified"}
     if spec["kind"] == "order":
         rng = np.random.default_rng(7)
-        N, fs = 400, 20.0
-        k = 100
+        N, fs0 = 400, 20.0
         recs, refs = [], []
         a = float(spec.get("a", 30.0))
         for i in range(spec.get("nrec", 1)):
+            fs = fs0 if not spec.get("dts") else fs0 * spec["dts"][0] / spec["dts"][i]
+            k = int(round(100 * fs / fs0))
             x = {c: np.cumsum(rng.normal(size=N)) + 0.01 * np.arange(N) for c in ("ns", "ew", "vt")}
             recs.append(hvsrpy.SeismicRecording3C(*[hvsrpy.TimeSeries(x[c].copy(), 1 / fs) for c in ("ns", "ew", "vt")], degrees_from_north=20.0))
             th = np.radians(a - 20.0)
@@ -306,7 +311,7 @@ def replay(spec):
                     wd = {c: sp_detrend(v, type=spec["detrend"]) for c, v in wd.items()}
                 refs.append(wd)
         st = hvsrpy.HvsrPreProcessingSettings(orient_to_degrees_from_north=a, filter_corner_frequencies_in_hz=[0.5, 4.0] if spec["filt"] == "band" else [None, None],
-                                              window_length_in_seconds=k / fs, detrend=spec["detrend"])
+                                              window_length_in_seconds=100 / fs0, detrend=spec["detrend"], ignore_dissimilar_time_step_warning=True)
         out = hvsrpy.preprocess(recs, st)
         if len(out) != len(refs):
             return {"reproduced": True, "key": "order-of-steps", "detail": f"{len(out)} windows vs {len(refs)}"}
